@@ -9,6 +9,7 @@
 //!  * `fuzz`    (thorough) bounded libFuzzer campaigns of the four targets in /verif/fuzz_c15
 
 mod fuzzpart;
+mod nanorder;
 mod nest;
 mod soup;
 mod stmts;
@@ -41,6 +42,7 @@ fn main() {
             PropPart::new("trees", 150_000, 2_000_000, trees::strategy, trees::check).boxed(),
             Box::new(nest::part()),
             PropPart::new("stmts", 2_000, 30_000, stmts::strategy, stmts::check).shrink_iters(800).boxed(),
+            PropPart::new("nan_order", 3_000, 60_000, nanorder::strategy, nanorder::check).shrink_iters(200).boxed(),
             Box::new(fuzzpart::corpus_part()),
             Box::new(fuzzpart::fuzz_part()),
         ],
